@@ -12,7 +12,8 @@ from . import core, gen, stores
 from .util import md5hex, safe_call
 
 PY = sys.executable
-SCENARIOS = ["stage_transfer", "index_save", "store_to_store", "upload_staging", "store_to_store_verify", "store_to_store_index", "stage_transfer_legacy"]
+SCENARIOS = ["stage_transfer", "index_save", "store_to_store", "upload_staging", "store_to_store_verify", "store_to_store_index", "stage_transfer_legacy",
+             "store_to_store_fetchlike", "store_to_store_pushlike"]
 
 
 def make_inputs(root, name, tree):
@@ -29,6 +30,9 @@ def make_inputs(root, name, tree):
         toid = md5hex(raw) + ".dir"
         stores.put_raw(a, toid, raw)
         ids = [toid]
+        if name.endswith("like"):
+            # fetch and push name every object explicitly (the index is loaded) and leave `shallow` at its default
+            ids += sorted(set(ents.values()))
         if name.endswith("verify"):
             # one corrupt source object: it must never end up protected or vouched for
             bad = sorted(ents.values())[0]
